@@ -55,6 +55,26 @@ theorem dema_actions (p1 q1 p2 q2 : Nat) (h1 : 1 ≤ p1) (h2 : 1 ≤ q1) (h3 : 1
       simp [hB]; omega
     rw [this]; simp
 
+/-- BOP strategy (no warm-up): the action for snapshot i is the sign test on the Balance of Power of snapshot i -/
+theorem bop_rule (fs : List α) :
+    ∃ e, lookupS "Bop" [] fs = some e ∧ e.idle = 0 ∧
+      ∀ (x : Nat → Nat → α) (i : Nat), den x e.sig i = signRule (den x (bop sOpen sHigh sLow sClose) i) :=
+  ⟨_, rfl, rfl, fun _ _ => rfl⟩
+
+/-- Buy-and-hold (no warm-up): Buy for the first snapshot, Hold for every later one -/
+theorem buyAndHold_rule (fs : List α) :
+    ∃ e, lookupS "BuyAndHold" [] fs = some e ∧ e.idle = 0 ∧
+      ∀ (x : Nat → Nat → α) (i : Nat), den x e.sig i = if i = 0 then buy else hold := by
+  refine ⟨_, rfl, rfl, fun x i => ?_⟩
+  simp only [Strat.buyAndHold, den, Sig.offD, Sig.off, Strat.sClose, Option.getD_some, Nat.sub_zero]
+  have key : ∀ (g : Nat → α) m, scanSt (fun (first : Bool) (_ : α) => (false, if first then (buy : α) else hold)) true
+      g (m + 1) = false := by
+    intro g m
+    cases m <;> simp [scanSt]
+  cases i with
+  | zero => simp [scanOut, scanSt]
+  | succ k => simp [scanOut, key]
+
 /-- the registry entries the correspondence run drives: two periods (both EMAs of a DEMA alike) or four -/
 theorem dema_lookup2 (p1 p2 : Nat) (fs : List α) :
     lookupS "Dema" [p1, p2] fs = some ⟨demaS p1 p1 p2 p2, p2 + p2 - 2⟩ := by
